@@ -311,6 +311,55 @@ func (c *checker) apply(o op, fullCheck bool) {
 				c.violate("added-but-absent", fmt.Sprintf("AddRoute(%s) reported added but no entry with that destination, next hop, source and hop list is present", o.name))
 				return
 			}
+			// Bystanders: adding a route changes nothing for other destinations; for its own destination it may
+			// replace the route over the same routers (or, for a peer route, the previous peer route) and, when the
+			// destination already held three routes, push out one non-peer route - nothing else disappears.
+			inAfter := map[string]bool{}
+			for _, l := range after {
+				inAfter[l] = true
+			}
+			sameRouters := func(a, b []m.SwitchHop) bool {
+				if len(a) != len(b) {
+					return false
+				}
+				for i := range a {
+					if a[i].Router != b[i].Router {
+						return false
+					}
+				}
+				return true
+			}
+			nDst, vanished := 0, 0
+			for i := range beforeEs {
+				e := &beforeEs[i]
+				gone := !inAfter[before[i]]
+				if e.DstIP != o.entry.DstIP {
+					if gone {
+						c.violate("add-changed-other-destination", fmt.Sprintf("AddRoute(%s) made the route to %s via %s disappear or change", o.name, e.DstIP, e.NextHop))
+						return
+					}
+					continue
+				}
+				nDst++
+				if !gone {
+					continue
+				}
+				switch {
+				case e.Source == m.RouteSourcePeer && o.entry.Source == m.RouteSourcePeer:
+					// the previous direct-peer route is replaced
+				case e.Source == m.RouteSourcePeer:
+					c.violate("peer-route-lost-on-add", fmt.Sprintf("AddRoute(%s), not a peer route, made the direct-peer route to %s disappear", o.name, e.DstIP))
+					return
+				case o.entry.Source != m.RouteSourcePeer && sameRouters(e.Path.Hops, o.entry.Path.Hops):
+					// the same route, refreshed
+				default:
+					vanished++
+				}
+			}
+			if vanished > 0 && (o.entry.Source == m.RouteSourcePeer || nDst < 3 || vanished > 1) {
+				c.violate("route-lost-on-add", fmt.Sprintf("AddRoute(%s) made %d other route(s) to the same destination disappear although the destination held %d route(s) (new route is a peer route: %v)", o.name, vanished, nDst, o.entry.Source == m.RouteSourcePeer))
+				return
+			}
 		} else {
 			if strings.Join(before, "\n") != strings.Join(after, "\n") {
 				c.violate("not-added-but-changed", fmt.Sprintf("AddRoute(%s) reported not added (err %v) but the table changed", o.name, err))
